@@ -319,3 +319,12 @@ Proof.
     assert (Z1 : s1 = 0) by (apply Qcle_antisym; assumption).
     rewrite Z1 in E. replace (0 + s2) with s2 in E by ring. congruence.
 Qed.
+
+(* ---- persist/restore steps --------------------------------------------------------------------------------- *)
+
+Theorem persist_invariant : forall ops s, fold_left ds_step ops s = fold_left ds_update (dvals ops) s.
+Proof.
+  induction ops as [|[x|] ops IH]; intro s; [reflexivity| |]; unfold dvals in *; cbn [flat_map fold_left ds_step app].
+  - apply IH.
+  - apply IH.
+Qed.
